@@ -487,6 +487,7 @@ type caseOut struct {
 	included   uint64
 	selfStop   bool
 	neverHalts bool
+	conc       string // Coq term of the halted aggregator's state for Check/ConcCheck.v ("" = not applicable)
 }
 
 func (o *caseOut) fail(sig, what string) {
@@ -601,6 +602,9 @@ func runCase(t *testing.T, c *Case, rootDir string) (out *caseOut) {
 			return
 		}
 		n.invariants(out)
+		if c.Mode == "agg" && c.InitialHeight == 1 {
+			out.conc = n.concTerm()
+		}
 	})
 	return out
 }
@@ -930,7 +934,7 @@ func TestVerif(t *testing.T) {
 			Replay: map[string]string{"what": err.Error()}})
 	}
 	dt := &descTable{ids: map[string]int{}}
-	var cases []string
+	var cases, ccases []string
 	distinct := map[string]bool{}
 	scen := map[string]interface{}{}
 	sigSeen := map[string]int{}
@@ -1027,6 +1031,9 @@ func TestVerif(t *testing.T) {
 			res.Violations = append(res.Violations, vgen.Violation{Signature: sig, What: o.what[vi], Case: ji, Replay: rp})
 		}
 		cases = append(cases, fmt.Sprintf("{| sc_id := %s; sc_loops := %s |}", vgen.N(uint64(ji)), vgen.List(loops)))
+		if o.conc != "" {
+			ccases = append(ccases, fmt.Sprintf("{| cc_id := %s; %s |}", vgen.N(uint64(ji)), o.conc))
+		}
 		res.Replays[fmt.Sprint(ji)] = c
 		if c.Scenario != "" {
 			scen[c.Scenario] = map[string]interface{}{"loops": o.loops, "oracle": o.viol, "blocks": o.height}
@@ -1057,6 +1064,13 @@ func TestVerif(t *testing.T) {
 		t.Fatal(err)
 	}
 	res.CaseFiles = []string{path}
+	cpath := filepath.Join(e.Out, "cases_C13_conc.v")
+	if err := vgen.WriteCases(cpath, "From Coq Require Import NArith List Bool.\nFrom Verif Require Import Model.Conc Check.ConcCheck.\nOpen Scope N_scope.", nil, "ccase", ccases, "cmismatches"); err != nil {
+		t.Fatal(err)
+	}
+	res.CaseFiles = append(res.CaseFiles, cpath)
+	res.Cases += len(ccases)
+	res.Distribution["aggregator-states-checked-against-Conc-invariant"] = len(ccases)
 	if err := res.Write(e.Out); err != nil {
 		t.Fatal(err)
 	}
@@ -1113,4 +1127,74 @@ func tail(s string, n int) string {
 		return s[len(s)-n:]
 	}
 	return s
+}
+
+// concTerm: the halted aggregator's state in the vocabulary of Model/Conc.v (block ids = indices of header hashes)
+func (n *node) concTerm() string {
+	ctx := context.Background()
+	ids := map[string]uint64{}
+	id := func(h []byte) uint64 {
+		if len(h) == 0 {
+			return 0
+		}
+		if v, ok := ids[string(h)]; ok {
+			return v
+		}
+		ids[string(h)] = uint64(len(ids) + 1)
+		return ids[string(h)]
+	}
+	height, _ := n.st.Height(ctx)
+	var blocks []string
+	commitAt := map[uint64][]byte{}
+	for h := uint64(1); h <= height+1; h++ {
+		hd, d, err := n.st.GetBlockData(ctx, h)
+		if err != nil {
+			continue
+		}
+		prev := uint64(0)
+		if h > 1 {
+			prev = id(hd.LastHeaderHash)
+		}
+		commitAt[h] = d.DACommitment()
+		blocks = append(blocks, fmt.Sprintf("(%s, mkb %s %s %s %s)", vgen.N(h), vgen.N(id(hd.Hash())), vgen.N(prev), vgen.Bool(len(d.Txs) > 0), vgen.Bool(len(hd.Signature) > 0)))
+	}
+	var dah, dad []string
+	for _, blobs := range n.da.snapshot() {
+		for _, b := range blobs {
+			var sh types.SignedHeader
+			if sh.UnmarshalBinary(b) == nil && sh.ValidateBasic() == nil {
+				dah = append(dah, fmt.Sprintf("(%s, %s)", vgen.N(sh.Height()), vgen.N(id(sh.Hash()))))
+				continue
+			}
+			var sd types.SignedData
+			if sd.UnmarshalBinary(b) == nil && len(sd.Txs) > 0 && sd.Metadata != nil {
+				h := sd.Height()
+				bid := uint64(1 << 40) // data that is not the stored block's data
+				if c, ok := commitAt[h]; ok && bytes.Equal(c, sd.Data.DACommitment()) {
+					if hd, err := n.st.GetHeader(ctx, h); err == nil {
+						bid = id(hd.Hash())
+					}
+				}
+				dad = append(dad, fmt.Sprintf("(%s, %s)", vgen.N(h), vgen.N(bid)))
+			}
+		}
+	}
+	sort.Strings(dah)
+	sort.Strings(dad)
+	sth := uint64(0)
+	if s, err := n.st.GetState(ctx); err == nil {
+		sth = s.LastBlockHeight
+	}
+	pwh, _ := n.metaU64(store.LastSubmittedHeaderHeightKey)
+	pwd, _ := n.metaU64(block.LastSubmittedDataHeightKey)
+	pdi, _ := n.metaU64(store.DAIncludedHeightKey)
+	fin := uint64(0)
+	n.exec.mu.Lock()
+	if l := len(n.exec.finals); l > 0 {
+		fin = n.exec.finals[l-1]
+	}
+	n.exec.mu.Unlock()
+	return fmt.Sprintf("cc_blocks := %s; cc_ht := %s; cc_sth := %s; cc_wh := %s; cc_pwh := %s; cc_wd := %s; cc_pwd := %s; cc_dah := %s; cc_dad := %s; cc_di := %s; cc_pdi := %s; cc_fin := %s",
+		vgen.List(blocks), vgen.N(height), vgen.N(sth), vgen.N(n.m.VerifLastSubmittedHeaderHeight()), vgen.N(pwh), vgen.N(n.m.VerifLastSubmittedDataHeight()), vgen.N(pwd),
+		vgen.List(dah), vgen.List(dad), vgen.N(n.m.GetDAIncludedHeight()), vgen.N(pdi), vgen.N(fin))
 }
